@@ -162,3 +162,25 @@ def pcm_words(seed, n):
         x = (x * 1103515245 + 12345 + i) & 0xFFFFFFFF
         out += ((x >> 8) & 0xFFFF).to_bytes(2, "little")
     return bytes(out)
+
+
+def load_helpers(filename, wanted):
+    """Load selected top-level functions / constants of a helper script of this directory WITHOUT running its top level
+    (the self-tests insert /repo into sys.path and import the package, which would shadow $VERIF_REPO)."""
+    import ast
+    path = os.path.join(HERE, filename)
+    tree = ast.parse(open(path).read())
+    keep = []
+    for node in tree.body:
+        if isinstance(node, ast.FunctionDef) and node.name in wanted:
+            keep.append(node)
+        elif isinstance(node, ast.ClassDef) and node.name in wanted:
+            keep.append(node)
+        elif isinstance(node, ast.Assign) and any(isinstance(t, ast.Name) and t.id in wanted for t in node.targets):
+            keep.append(node)
+    mod = ast.Module(body=keep, type_ignores=[])
+    import random
+    import akai_program_writer as pw
+    ns = {"random": random, "pw": pw}
+    exec(compile(mod, path, "exec"), ns)
+    return ns
